@@ -177,6 +177,16 @@ def oracle(ctx):
                                    ('src/' + v[:80] + '.volume').encode(): f'[Volume]\n{ "Bogus" }={v}\n'.encode()})
     if not ctx.thorough:
         long_trees = rnd.sample(long_trees, 16)
+    # shapes of the directory tree: links between directories — a loop, a link to the parent, a dangling link, and a loop-free
+    # lattice (every level links three times to the next: 20 directories, 3^19 paths) — the walk must end whatever it follows
+    unit = b'[Container]\nImage=localhost/i\n'
+    lattice = {b'src/n%02d/%s' % (i, l): ('link', b'../n%02d' % (i + 1)) for i in range(19) for l in (b'a', b'b', b'c')}
+    lattice[b'src/n19/deep.container'] = unit
+    lattice[b'src/top.container'] = unit
+    long_trees += [lattice,
+                   {b'src/a/x.container': unit, b'src/a/to-b': ('link', b'../b'), b'src/b/y.container': unit, b'src/b/to-a': ('link', b'../a')},
+                   {b'src/sub/x.container': unit, b'src/sub/up': ('link', b'..'), b'src/sub/self': ('link', b'.'), b'src/gone': ('link', b'nowhere')},
+                   {b'src/x.container': unit, b'src/x.container.d/loop': ('link', b'../x.container.d'), b'src/x.container.d/10.conf': b'[Container]\nLabel=a=b\n'}]
     n_adv = len(trees_)
     trees_ += long_trees
 
@@ -187,6 +197,9 @@ def oracle(ctx):
             p = os.path.join(base.encode(), rel)
             try:
                 os.makedirs(os.path.dirname(p), exist_ok=True)
+                if isinstance(content, tuple):
+                    os.symlink(content[1], p)
+                    continue
                 with open(p, 'wb') as f:
                     f.write(content)
             except OSError:
@@ -201,7 +214,7 @@ def oracle(ctx):
         for (rc, se), mode in zip(rs, ('--dry-run', 'normal run', 'normal run, logging to /dev/kmsg, -v', 'normal run, logging to /dev/kmsg')):
             res.oracle_evals += 1
             if rc not in (0, 1):
-                res.oracle_failures.append(dict(op='e2e', input={k.decode('utf-8', 'backslashreplace')[:300]: (v.decode('utf-8', 'backslashreplace') if len(v) < 600 else v[:200].decode('utf-8', 'replace') + f' … [{len(v)} bytes]') for k, v in files.items()},
+                res.oracle_failures.append(dict(op='e2e', input={k.decode('utf-8', 'backslashreplace')[:300]: (str(v) if isinstance(v, tuple) else v.decode('utf-8', 'backslashreplace') if len(v) < 600 else v[:200].decode('utf-8', 'replace') + f' … [{len(v)} bytes]') for k, v in files.items()},
                                                 impl_output=f'{mode}: exit status {rc}; {se}', oracle_expectation='terminates on its own with exit status 0 or 1'))
     res.samples.append(dict(kind='adversarial-tree', files={k.decode('utf-8', 'backslashreplace'): v.decode('utf-8', 'backslashreplace')[:200] for k, v in trees_[0].items()}))
     ctx.log(f'oracle: {res.oracle_evals} evaluations, {len(res.oracle_failures)} failures')
